@@ -59,7 +59,7 @@
 //@ fn SnapshotBuilder::process_key
 //@ spec
     ensures
-        // C09: exactly the keys (key id, asn, key info) for the ASNs of the
+        // C09 + C02 (no valid router key is dropped other than by the documented filters): exactly the keys (key id, asn, key info) for the ASNs of the
         // certificate that no SLURM filter drops are added; nothing is removed
         final(self).router_keys@.dom() == keys_added(old(self).router_keys@.dom(), &key, old(self).exceptions,
                                                       key.asns.asns_spec().len() as int),
